@@ -131,7 +131,11 @@ func genFasta(r *core.Rng, sz Size) Doc {
 func genFastq(r *core.Rng, sz Size) Doc {
 	var d Doc
 	n := nrec(r, sz)
-	lens := splitBudget(r, budget(r, sz)/2, n)
+	bud := budget(r, sz) / 2
+	if sz == Large {
+		bud *= 2 // lines beyond bufio.Scanner's 64 KiB token limit
+	}
+	lens := splitBudget(r, bud, n)
 	maxName := 8
 	if sz == Tiny {
 		maxName = 1
@@ -320,10 +324,10 @@ func genNewick(r *core.Rng, sz Size) Doc {
 	case Tiny:
 		depth = 1
 	case Medium:
-		n = r.Range(20, 60)
+		n = r.Range(150, 400)
 		depth = 5
 	case Large:
-		n = r.Range(400, 900)
+		n = r.Range(3000, 8000)
 		depth = 5
 	}
 	var line []byte
